@@ -566,7 +566,18 @@ fn mode_imports() {
     let v1i = e1::ConcordiumAllowedImports { support_upgrade: true, enable_debug: false };
     let v1n = e1::ConcordiumAllowedImports { support_upgrade: false, enable_debug: false };
     let v0i = e0::ConcordiumAllowedImports;
-    let mut run = |label: &str, imp: &dyn Fn(bool, &Name, &Name, &FunctionType) -> bool, table: &Vec<(&str, Vec<VT>, Option<VT>)>, other: &Vec<(&str, Vec<VT>, Option<VT>)>| {
+    let show_ft = |t: &FunctionType| -> (Vec<String>, String) {
+        let tok = |v: &ValueType| match v { ValueType::I32 => "7f".to_string(), ValueType::I64 => "7e".to_string() };
+        (t.parameters.iter().map(tok).collect(), t.result.as_ref().map(tok).unwrap_or_default())
+    };
+    let mut run = |label: &str, imp0: &dyn Fn(bool, &Name, &Name, &FunctionType) -> bool, table: &Vec<(&str, Vec<VT>, Option<VT>)>, other: &Vec<(&str, Vec<VT>, Option<VT>)>| {
+        // every query is also printed so that the Coq table (Wasm/Imports.v) answers the same questions
+        let imp = |d: bool, m: &Name, i: &Name, t: &FunctionType| -> bool {
+            let r = imp0(d, m, i, t);
+            let (p, rs) = show_ft(t);
+            println!("{}", json!({"q": "imp", "v": label, "dup": d, "mod": hex(m.name.as_bytes()), "name": hex(i.name.as_bytes()), "p": p, "r": rs, "res": r}));
+            r
+        };
         for (n, p, r) in table {
             let t = ft(p, r);
             checks += 6;
@@ -592,7 +603,18 @@ fn mode_imports() {
     };
     run("v0", &|d, m, i, t| v0i.validate_import_function(d, m, i, t), &v0, &v1);
     run("v1", &|d, m, i, t| v1i.validate_import_function(d, m, i, t), &v1, &v0);
-    if v1n.validate_import_function(false, &nm("concordium"), &nm("upgrade"), &ft(&vec![I32], &Some(I64))) { fails.push("v1 without upgrade support accepts upgrade".into()); }
+    {
+        let t = ft(&vec![I32], &Some(I64));
+        let r = v1n.validate_import_function(false, &nm("concordium"), &nm("upgrade"), &t);
+        println!("{}", json!({"q": "imp", "v": "v1n", "dup": false, "mod": hex(b"concordium"), "name": hex(b"upgrade"), "p": ["7f"], "r": "7e", "res": r}));
+        if r { fails.push("v1 without upgrade support accepts upgrade".into()); }
+    }
+    let exq = |v: &str, n: &str, t: &FunctionType, r: bool| -> bool {
+        let tok = |v: &ValueType| match v { ValueType::I32 => "7f".to_string(), ValueType::I64 => "7e".to_string() };
+        let p: Vec<String> = t.parameters.iter().map(tok).collect();
+        println!("{}", json!({"q": "exp", "v": v, "name": hex(n.as_bytes()), "p": p, "r": t.result.as_ref().map(tok).unwrap_or_default(), "res": r}));
+        r
+    };
     // exports
     let good = ft(&vec![I64], &Some(I32));
     let bad = ft(&vec![I32], &Some(I32));
@@ -604,15 +626,21 @@ fn mode_imports() {
     ];
     for (n, a, b, c, d) in ex {
         checks += 4;
-        if v0i.validate_export_function(&nm(n), &good) != a { fails.push(format!("v0 export {:?} good type: expected {}", n, a)); }
-        if v0i.validate_export_function(&nm(n), &bad) != b { fails.push(format!("v0 export {:?} bad type: expected {}", n, b)); }
-        if v1i.validate_export_function(&nm(n), &good) != c { fails.push(format!("v1 export {:?} good type: expected {}", n, c)); }
-        if v1i.validate_export_function(&nm(n), &bad) != d { fails.push(format!("v1 export {:?} bad type: expected {}", n, d)); }
+        if exq("v0", n, &good, v0i.validate_export_function(&nm(n), &good)) != a { fails.push(format!("v0 export {:?} good type: expected {}", n, a)); }
+        if exq("v0", n, &bad, v0i.validate_export_function(&nm(n), &bad)) != b { fails.push(format!("v0 export {:?} bad type: expected {}", n, b)); }
+        if exq("v1", n, &good, v1i.validate_export_function(&nm(n), &good)) != c { fails.push(format!("v1 export {:?} good type: expected {}", n, c)); }
+        if exq("v1", n, &bad, v1i.validate_export_function(&nm(n), &bad)) != d { fails.push(format!("v1 export {:?} bad type: expected {}", n, d)); }
     }
     let long = "a.".to_string() + &"x".repeat(99);
     checks += 2;
-    if v1i.validate_export_function(&nm(&long), &good) { fails.push("v1 export name of 101 bytes accepted".into()); }
-    if !v1i.validate_export_function(&nm(&long[..100]), &good) { fails.push("v1 export name of 100 bytes rejected".into()); }
+    if exq("v1", &long, &good, v1i.validate_export_function(&nm(&long), &good)) { fails.push("v1 export name of 101 bytes accepted".into()); }
+    if !exq("v1", &long[..100], &good, v1i.validate_export_function(&nm(&long[..100]), &good)) { fails.push("v1 export name of 100 bytes rejected".into()); }
+    for n in ["init_x", "x.y", "plain", "in it.x", "\u{1}.x", "a.b~", "{.}"] {
+        for t in [&good, &bad] {
+            exq("v0", n, t, v0i.validate_export_function(&nm(n), t));
+            exq("v1", n, t, v1i.validate_export_function(&nm(n), t));
+        }
+    }
     println!("{}", json!({"imports": {"checks": checks, "fails": fails}}));
 }
 
